@@ -30,8 +30,10 @@
    * reductions any/all/sum/mean/max/min with axis/keepdims on vectors (1552-1600, 2604-2650) and arrays
      (1025-1207; boolean arrays: any/all only), copy, clear, setflags(0) / read_only, to_array, construction
      from list / ndarray / dict / SparseVector / sparse()
-   Not modelled: negative indices and steps, mix_from, copy_like, sum_of, nonzero_* / negative_* helpers,
-   to_flat_array/from_flat_array, the `# pragma: no cover` methods that delegate to to_array(), numeric
+   * copy_like of SparseVector (1611-1615, with its `dct is other.dct` test) and SparseArray (598-601, row by row, also
+     from a[[sel]] which shares the row objects), to_flat_array(buffer) / from_flat_array (694-727, 1471-1480, 2541-2550)
+   Not modelled: negative indices and steps, mix_from, sum_of, nonzero_* / negative_* helpers,
+   the `# pragma: no cover` methods that delegate to to_array(), numeric
    reductions of boolean arrays, SparseLogicalVector/boolean SparseArray __setitem__ through arrays. *)
 From V Require Export Common.Num.
 
